@@ -200,6 +200,7 @@ template <class E> static void family_given(E &e, long &kc, size_t n) {
 	do {
 		for (int pattern : {0, 1}) {
 			if (n == 1 && pattern == 1) continue;
+			if (ctx.quick() && n >= 5 && pattern != (int)(perms & 1)) continue;   // quick: alternate the two patterns at n = 5
 			std::vector<size_t> T = make_types(n, pattern, e.maxtype(), r);
 			e.shuffler = r.below(e.players());
 			auto s = make_stack(e, T, r);
@@ -560,7 +561,7 @@ int main(int argc, char **argv) {
 	for (size_t n : std::vector<size_t>{1, 2, 3, 5, 8, 16, 52, 64, 128, 511, 512}) {
 		int reps = quick ? (n <= 64 ? 3 : 1) : (n <= 64 ? 60 : 12);
 		if (will_run(kc)) { EncDlog e; e.W = dlog_world(1); family_import_random(e, kc, n, reps); } else kc++;
-		if (n <= 128 || !quick) { if (will_run(kc)) { EncQr e; e.W = qr_world(2, 3); family_import_random(e, kc, n, n > 128 ? 3 : reps); } else kc++; }
+		if (n <= 64 || !quick) { if (will_run(kc)) { EncQr e; e.W = qr_world(2, 3); family_import_random(e, kc, n, n > 128 ? 3 : reps); } else kc++; }
 	}
 	// R: import into an object that is not empty
 	for (size_t n : {2, 3, 5}) {
